@@ -1,6 +1,7 @@
 import SSV.Proofs.Parsers
 import SSV.Proofs.ParsersMore
 import SSV.Proofs.ParsersRouter
+import SSV.Proofs.ParsersSocks2
 /-
 C06 — No bytes from the network can crash the process.
 
@@ -85,6 +86,25 @@ theorem no_panic_udpClientUnpack (C : Ciphers) (hC : C.LenPreserving) (now : Int
     (b : Bytes) (ps pl : Nat) (hb : ps + pl ≤ b.length) : udpClientUnpack C now csid sessOk replayed b ps pl ≠ .panic :=
   np_udpClientUnpack C hC now csid sessOk replayed b ps pl hb
 example : (3 : Nat) + 40 ≤ (List.replicate 50 (0 : UInt8)).length := by decide
+
+/-- the session relay's receive path for one datagram: `SessionInfo` → `NewUnpacker` → `UnpackInPlace` -/
+theorem no_panic_udpServerReceive (C : Ciphers) (hC : C.LenPreserving) (now : Int) (idLen : Nat) (found replayed : Bool)
+    (b : Bytes) (ps pl : Nat) (hb : ps + pl ≤ b.length) (hid : idLen = 0 ∨ idLen = Gen.C06.IdentityHeaderLength) :
+    udpServerReceive C now idLen found replayed b ps pl ≠ .panic :=
+  np_udpServerReceive C hC now idLen found replayed b ps pl hb hid
+
+/-! ### the SOCKS5 server handshake on its scratch buffer, and the reply it constructs -/
+
+/-- FOR EVERY client byte stream, authentication mode, user table, enabled command set and local
+address kind: method selection, username/password sub-negotiation, request parsing on the
+`3+MaxAddrLen` scratch buffer, the UDP ASSOCIATE / command-not-supported replies, and the later
+`Proceed` / `Abort(code)` reply do not panic. -/
+theorem no_panic_socks5_server (auth : Bool) (check : Bytes → Bytes → Bool) (tcp udp tcpLocal : Bool) (bound : Bytes)
+    (finish : Option UInt8) (stream : Bytes) : s5Server auth check tcp udp tcpLocal bound finish stream ≠ .panic :=
+  np_s5Server auth check tcp udp tcpLocal bound finish stream
+
+example : s5Server false (fun _ _ => false) true false false [] (some 0) [5, 1, 0, 5, 1, 0, 3, 1, 0x61, 0, 80] =
+    .ok (.dom [0x61] 80, [5, 0, 5, 0, 0, 1, 0, 0, 0, 0, 0, 0]) := by decide
 
 /-! ### direct / none / SOCKS5 packet unpackers -/
 
@@ -260,6 +280,18 @@ theorem shape_RouterMatch : Gen.C06.RouterMatch_shape =
 theorem shape_RouteMatch : Gen.C06.RouteMatch_shape =
     [] := by decide
 
+theorem shape_serverHandleMethodSelection : Gen.C06.serverHandleMethodSelection_shape =
+    ["if len(b) < 1+1+255 => return", "panic", "b[:3]", "b[0]", "b[0]", "b[1]", "b[2]", "b[3 : 3+nmethods-1]", "b[2 : 2+nmethods]", "b[1]", "b[:2]", "b[1]", "b[:2]"] := by decide
+
+theorem shape_serverHandleUsernamePassword : Gen.C06.serverHandleUsernamePassword_shape =
+    ["if len(b) < 1+1+255+1 => return", "panic", "b[:4]", "b[0]", "b[0]", "b[1]", "b[4 : 4+ulen-1]", "b[2:plenIndex]", "b[plenIndex]", "b[2 : 2+plen]", "b[1]", "b[:2]"] := by decide
+
+theorem shape_serverHandleRequest : Gen.C06.serverHandleRequest_shape =
+    ["if len(b) < 3+MaxAddrLen => return", "panic", "b[:5]", "b[0]", "b[0]", "b[3:3]", "b[3:5]", "b[1]", "b[1]", "b[:3]", "b[:1]"] := by decide
+
+theorem shape_replyWithStatus : Gen.C06.replyWithStatus_shape =
+    ["b[:replyLen]", "reply[0]", "reply[1]", "reply[2]", "conv (*[IPv4AddrLen]byte)", "reply[3:]"] := by decide
+
 end SSV.C06
 
 #print axioms SSV.C06.no_panic_addrPortFromSlice
@@ -278,6 +310,8 @@ end SSV.C06
 #print axioms SSV.C06.no_panic_udpNewUnpacker
 #print axioms SSV.C06.no_panic_udpServerUnpack
 #print axioms SSV.C06.no_panic_udpClientUnpack
+#print axioms SSV.C06.no_panic_udpServerReceive
+#print axioms SSV.C06.no_panic_socks5_server
 #print axioms SSV.C06.no_panic_noneServerUnpack
 #print axioms SSV.C06.no_panic_noneClientUnpack
 #print axioms SSV.C06.no_panic_socks5ServerUnpack
@@ -326,3 +360,7 @@ end SSV.C06
 #print axioms SSV.C06.shape_DestResolvedIPMeet
 #print axioms SSV.C06.shape_RouterMatch
 #print axioms SSV.C06.shape_RouteMatch
+#print axioms SSV.C06.shape_serverHandleMethodSelection
+#print axioms SSV.C06.shape_serverHandleUsernamePassword
+#print axioms SSV.C06.shape_serverHandleRequest
+#print axioms SSV.C06.shape_replyWithStatus
